@@ -54,14 +54,27 @@ template<class A> auto bump(A& y) -> decltype(y.elements(), void()) { for(auto& 
 
 static std::uint64_t mix(std::uint64_t z) { z += 0x9E3779B97F4A7C15ULL; z = (z ^ (z >> 30)) * 0xBF58476D1CE4E5B9ULL; z = (z ^ (z >> 27)) * 0x94D049BB133111EBULL; return z ^ (z >> 31); }
 
+// can libstdc++'s ordering algorithms be instantiated on this iterator?  They compare a saved value with a proxy
+// (`value_type < reference` and `reference < value_type`).  With raw pointers both are the same class; with a fancy
+// pointer whose default allocator hands out raw pointers the saved value is an array over T* and the proxy a view over the
+// fancy pointer — the library has a heterogeneous `==` but (unless fixes/C11-hetero-less.patch is applied) no heterogeneous `<`.
+template<class A, class B, class = void> struct has_less : std::false_type {};
+template<class A, class B> struct has_less<A, B, std::void_t<decltype(std::declval<A const&>() < std::declval<B const&>())>> : std::true_type {};
+template<class It> constexpr bool orderable_v =
+	has_less<typename std::iterator_traits<It>::value_type, typename std::iterator_traits<It>::reference>::value &&
+	has_less<typename std::iterator_traits<It>::reference, typename std::iterator_traits<It>::value_type>::value;
+static bool needs_order(std::string const& n) { return n == "sort" || n == "stable_sort" || n == "partial_sort" || n == "nth_element"; }
+
 // the same std:: algorithm on any pair of ranges; returns the position (as a distance) or value the algorithm returns
 template<class I1, class I2> long apply_algo(std::string const& name, I1 first, I1 last, I2 first2, I2 last2, long k1) {
 	auto n = static_cast<long>(last - first);
 	auto pred = [](auto const& x) { return sum_of(x) % 2 == 0; };
-	if(name == "sort") { std::sort(first, last); return 0; }
-	if(name == "stable_sort") { std::stable_sort(first, last); return 0; }
-	if(name == "partial_sort") { std::partial_sort(first, first + k1, last); return 0; }
-	if(name == "nth_element") { if(k1 < n) std::nth_element(first, first + k1, last); return 0; }
+	if constexpr(orderable_v<I1>) {
+		if(name == "sort") { std::sort(first, last); return 0; }
+		if(name == "stable_sort") { std::stable_sort(first, last); return 0; }
+		if(name == "partial_sort") { std::partial_sort(first, first + k1, last); return 0; }
+		if(name == "nth_element") { if(k1 < n) std::nth_element(first, first + k1, last); return 0; }
+	} else { if(needs_order(name)) { std::fprintf(stderr, "harness: %s is not instantiable on this range\n", name.c_str()); std::abort(); } }
 	if(name == "rotate") { return static_cast<long>(std::rotate(first, first + k1, last) - first); }
 	if(name == "reverse") { std::reverse(first, last); return 0; }
 	if(name == "partition") { return static_cast<long>(std::partition(first, last, pred) - first); }
@@ -140,16 +153,34 @@ template<multi::dimensionality_type D, bool Elems> void run_case(std::string con
 	else std::fprintf(fans, "algo FAIL %s %s D=%d n=%ld k1=%ld%s\n", name.c_str(), Elems ? "elems" : "rows", static_cast<int>(D), static_cast<long>(A.size()), k1, fail.c_str());
 }
 
+// C11: with the bounds-tracking pointer every dereference outside the roots' storage is counted; one line per program
+static std::vector<std::pair<long, long>> g_roots;
+static void report_oob() {
+#if PTR_KIND == 2
+	if(fancy::g_oob_deref != 0) { std::fprintf(fans, "OOB-DEREF %ld dereferences outside the storage\n", fancy::g_oob_deref); fancy::g_oob_deref = 0; }
+#endif
+}
+#if PTR_KIND == 2
+static bool in_roots(std::ptrdiff_t byte_off) {
+	if(byte_off < 0) return false;
+	long a = static_cast<long>(byte_off / static_cast<std::ptrdiff_t>(sizeof(VT)));
+	for(auto const& r : g_roots) { if(a >= r.first && a < r.second) return true; }
+	return false;
+}
+#endif
+
 static void exec_line(std::string const& line) {
 	std::fprintf(fprog, "%s\n", line.c_str()); std::fflush(fprog); std::fflush(fans);
 	auto w = words_of(line);
 	if(w.empty() || w[0] == "#") return;
-	if(w[0] == "prog") { std::fprintf(fans, "%s\n", line.c_str()); reset_memory(); return; }
+	if(w[0] == "prog") { report_oob(); std::fprintf(fans, "%s\n", line.c_str()); reset_memory(); g_roots.clear(); return; }
 	if(w[0] == "root") {
 		int reg = std::stoi(w[1]); long base = std::stol(w[2]); int D = std::stoi(w[3]);
 		std::vector<Ex> ex;
 		for(int k = 0; k < D; ++k) ex.push_back(Ex{std::stol(w[4 + 2 * static_cast<std::size_t>(k)]), std::stol(w[5 + 2 * static_cast<std::size_t>(k)])});
-		regs[static_cast<std::size_t>(reg)] = make_root_any(ex, g_mem + base);
+		regs[static_cast<std::size_t>(reg)] = make_root_any(ex, make_ptr(base));
+		long ne = 1; for(auto const& e : ex) ne *= e.size();
+		g_roots.push_back(std::make_pair(base, base + ne));
 		return;
 	}
 	if(w[0] == "v") { regs[static_cast<std::size_t>(std::stoi(w[1]))] = apply_any(regs[static_cast<std::size_t>(std::stoi(w[2]))], parse_op(w)); return; }
@@ -170,6 +201,10 @@ static void exec_line(std::string const& line) {
 }
 
 // generation ----------------------------------------------------------------------------------------------------------
+// whether the ordering algorithms can be instantiated on the rows of a D-dimensional view of the pointer kind under test
+template<multi::dimensionality_type D> constexpr bool rows_orderable_v = orderable_v<decltype(std::declval<multi::subarray<VT, D, VPtr>&>().begin())>;
+static bool rows_orderable(int D) { return D == 1 ? rows_orderable_v<1> : D == 2 ? rows_orderable_v<2> : rows_orderable_v<3>; }
+
 static long alloc_root(long ne, Rng& rng) {
 	long base = g_next + GUARD + rng.range(0, 5);
 	g_next = base + ne + GUARD;
@@ -261,6 +296,7 @@ static void run_generated(std::uint64_t seed, long nprog) {
 			bool elems = rng.coin(40);
 			if(ne == 0 && n != 0) elems = true;   // rows without elements: see above
 			if(needs_b(name) && !same) continue;
+			if(!elems && needs_order(name) && !rows_orderable(rank_of(regs[1]))) continue;   // see has_less above (C11 finding)
 			long len = elems ? ne : n;
 			long k1 = len == 0 ? 0 : rng.range(0, len);
 			exec_line("x algo " + name + " " + (elems ? "elems" : "rows") + " 1 " + (needs_b(name) ? "11" : "-1") + " " + std::to_string(rng.next() % 100000) + " " + std::to_string(k1) + " " + std::to_string(rng.range(0, 50)));
@@ -282,9 +318,16 @@ int main(int argc, char** argv) {
 	if(!fprog || !fans) { std::perror("fopen"); return 2; }
 	// watchdog: a library change that makes a loop run away must end as a crash (reported, shrunk), not as a hang
 	alarm((argc >= 8 && std::string(argv[6]) == "--replay") ? 20 : static_cast<unsigned>(60 + nprog / 200));
-	g_store.assign(static_cast<std::size_t>(NCELL), 0); g_mem = g_store.data();
+	g_store.assign(static_cast<std::size_t>(NCELL), 0); g_mem = g_store.data(); g_vr_origin = g_mem;
+#if PTR_KIND != 0
+	fancy::g_origin = g_mem;
+#endif
+#if PTR_KIND == 2
+	fancy::g_in_bounds = &in_roots;
+#endif
 	reset_memory();
 	if(argc >= 8 && std::string(argv[6]) == "--replay") run_replay(argv[7]); else run_generated(seed, nprog);
+	report_oob();
 	std::fclose(fprog); std::fclose(fans);
 	return 0;
 }
